@@ -102,7 +102,7 @@ pub fn profile_for(prop: &str) -> Profile {
             modify_only_via_event: false,
             drain: true,
             start_halted: 0.15,
-            truncate_rate: 0.05,
+            truncate_rate: 0.04,
             ..base
         },
         "C12" => Profile {
@@ -147,7 +147,7 @@ pub struct Alphabet {
     pub wide: bool,
 }
 
-fn make_alphabet(r: &mut SimRng, tick: u32, kind: u8) -> Vec<u32> {
+pub fn make_alphabet(r: &mut SimRng, tick: u32, kind: u8) -> Vec<u32> {
     let t = tick as u64;
     let max_k = (PMAX as u64 - 1) / t; // highest multiple of tick strictly below 2^32-1
     let n = match kind {
@@ -173,7 +173,7 @@ fn make_alphabet(r: &mut SimRng, tick: u32, kind: u8) -> Vec<u32> {
     v
 }
 
-fn gen_vol(r: &mut SimRng, kind: u8) -> u32 {
+pub fn gen_vol(r: &mut SimRng, kind: u8) -> u32 {
     match kind {
         0 => r.range(1, 2) as u32,
         1 => r.range(1, 10) as u32,
@@ -426,7 +426,7 @@ impl<'a> Gen<'a> {
             *self.r.pick(&BOOK_LEVELS)
         };
         let keep = self.r.chance(0.45);
-        let truncate = how >= 2 && self.r.chance(self.p.truncate_rate * 4.0);
+        let truncate = how >= 2 && self.r.chance(self.p.truncate_rate);
         self.push(Op::Snapshot { how, into_levels, keep, truncate });
         // the continuation must reveal the restored trading flag: a crossing limit order and a market order
         if self.r.chance(0.7) {
@@ -493,7 +493,9 @@ pub fn generate(prop: &str, seed: u64) -> W1Scn {
     let len = if r.chance(0.8) { r.range(3, 40) } else { r.range(41, p.max_len as u64) } as usize;
     let mut gcfg = cfg.clone();
     gcfg.monitors = 0;
-    let mut g = Gen { r: &mut r, p: &p, alph, vol_kind, ex: Exec::new(&gcfg), ops: vec![] };
+    let mut gex = Exec::new(&gcfg);
+    gex.model_only = true;
+    let mut g = Gen { r: &mut r, p: &p, alph, vol_kind, ex: gex, ops: vec![] };
     // per-run weights: swarm — randomly knock out some op kinds
     let mut w = p.w;
     for k in [2usize, 3, 6, 8, 9] {
